@@ -279,6 +279,24 @@ func c08CopyExhaustive(c *Check, a *Anchors) {
 					continue
 				}
 			}
+			// a shallow clone of a container of mutable elements: Copy / Clone methods of a library container, slices.Clone,
+			// maps.Clone, append([]T(nil), x...) applied to the receiver's field copy the container but share the elements
+			if isRefType(f.Type()) && recv != nil {
+				if call, ok := ast.Unparen(v).(*ast.CallExpr); ok && mentions(info, call, recv) {
+					fn, _ := callee(info, call).(*types.Func)
+					shallow := false
+					switch {
+					case fn != nil && fn.Pkg() != nil && !strings.HasPrefix(fn.Pkg().Path(), Mod) && (fn.Name() == "Copy" || fn.Name() == "Clone"):
+						shallow = true
+					case isBuiltin(info, call, "append"):
+						shallow = true
+					}
+					if shallow && hasMutableElems(f.Type()) {
+						c.Bad("copy-exhaustive", key, v.Pos(), fmt.Sprintf("(*%s).DeepCopy copies field %s with `%s`, which clones the container but shares its elements (pointers to mutable values): what one user of the copy writes into an element (a resolved matrix row, a templated value) is seen by every other user and by the definition", t.Obj().Name(), f.Name(), exprStr(v)))
+						continue
+					}
+				}
+			}
 			c.OK("copy-exhaustive", key, v.Pos(), "copied")
 		}
 	}
@@ -815,4 +833,30 @@ func c08IncludeAttrsRegardlessOfFlatten(c *Check, a *Anchors) {
 	}
 	c.Decide(nInternal > 0, "include-attrs-regardless-of-flatten", "internal-inherited@"+fnDisplay(tm), tm.Decl.Pos(), "Task.Internal is assigned from Include.Internal", "the merge no longer marks the tasks of an internal include as internal")
 	c.Floor("include-attrs-regardless-of-flatten", nIf, 1)
+}
+
+// hasMutableElems: the container type (pointer to / slice / map / generic library container) holds elements that are
+// themselves references to mutable values.
+func hasMutableElems(t types.Type) bool {
+	switch x := t.(type) {
+	case *types.Pointer:
+		return hasMutableElems(x.Elem())
+	case *types.Alias:
+		return hasMutableElems(types.Unalias(x))
+	case *types.Slice:
+		return isRefType(x.Elem()) && !isImmutableRef(x.Elem())
+	case *types.Map:
+		return isRefType(x.Elem()) && !isImmutableRef(x.Elem())
+	case *types.Named:
+		if ta := x.TypeArgs(); ta != nil {
+			for i := 0; i < ta.Len(); i++ {
+				if isRefType(ta.At(i)) && !isImmutableRef(ta.At(i)) {
+					return true
+				}
+			}
+			return false
+		}
+		return hasMutableElems(x.Underlying())
+	}
+	return false
 }
